@@ -159,14 +159,14 @@ Ltac put_tac H Hp Ecl :=
   try solve [eapply fresh_data; eauto]; try solve [eapply fresh_end; eauto];
   try lia; try congruence; try solve [split; eauto].
 
-Lemma mpstep_inv i st : MInv st -> MInv (mpstep i st).
+Lemma mpstep_g_inv sticky i st : MInv st -> MInv (mpstep_g sticky i st).
 Proof.
-  intros H. unfold mpstep. destruct (nth_error (mprods st) i) as [p|] eqn:Hp; auto.
+  intros H. unfold mpstep_g. destruct (nth_error (mprods st) i) as [p|] eqn:Hp; auto.
   destruct (mpc_ p) eqn:Epc.
   - (* MIdle *)
     destruct (mtodo p) as [|[shmok qfull|qfull] r]; auto.
     + destruct (closed p) eqn:Ecl; [pc_only H Hp (mfin p)|].
-      destruct (infb p || negb shmok).
+      destruct (sticky && infb p || negb shmok).
       * apply (inv_put st i p (mloc MWait (OFlush shmok qfull :: r) (S (nxt p)) true false) (i, DData (nxt p)) VS H Hp);
           put_tac H Hp Ecl.
       * destruct qfull.
@@ -256,12 +256,21 @@ Proof.
   - constructor.
 Qed.
 
+Lemma mstep_g_inv sticky st w : MInv st -> MInv (mstep_g sticky st w).
+Proof. destruct w; simpl; [apply mpstep_g_inv | apply mcstep_inv | apply msstep_inv]. Qed.
 Lemma mstep_inv st w : MInv st -> MInv (mstep st w).
-Proof. destruct w; simpl; [apply mpstep_inv | apply mcstep_inv | apply msstep_inv]. Qed.
+Proof. apply mstep_g_inv. Qed.
+
+(* isolation / FIFO do not depend on how the fallback flag is maintained *)
+Theorem mrun_g_inv sticky progs sched : MInv (mrun_g sticky sched (minit progs)).
+Proof.
+  unfold mrun_g. generalize (minit_inv progs). generalize (minit progs).
+  induction sched as [|w sched IH]; simpl; intros s H; auto. apply IH, mstep_g_inv, H.
+Qed.
 
 Theorem mrun_inv progs sched : MInv (mrun sched (minit progs)).
 Proof.
-  unfold mrun. generalize (minit_inv progs). generalize (minit progs).
+  unfold mrun, mrun_g. generalize (minit_inv progs). generalize (minit progs).
   induction sched as [|w sched IH]; simpl; intros s H; auto. apply IH, mstep_inv, H.
 Qed.
 
